@@ -271,8 +271,9 @@ Theorem gen_unordered_multimap_erase_range_cases first last ps :
   it_wf n first -> it_wf n last ->
   walk (mm_next l) (S n) first last = Some ps ->
   match gen_mm_erase_range first last with
-  | Throw => (2 <= length ps)%nat
-  | Done rest ret => exists i m, ps = seq i m /\ rest = erase_range i (i + m) l
+  | Throw => (2 <= length ps < n)%nat
+  | Done rest ret => exists i m, ps = seq i m /\ rest = erase_range i (i + m) l /\
+                     (m = 0 \/ m = 1 \/ (i = kstart l i /\ i + m = kend l i) \/ m = n)%nat
   end.
 Proof. intros Hf Hl W. rewrite gen_mm_erase_refines by auto. apply mm_erase_range_cases; auto. Qed.
 End UMMap.
